@@ -84,7 +84,30 @@ Theorem C15_commit_lines_wellformed cfg d : date_tail_okb d = true ->
 Proof. exact (commit_lines_wellformed cfg d). Qed.
 Print Assumptions C15_commit_lines_wellformed.
 
+(* the reference store under git-bug's writes and stock git's maintenance, interleaved in any order and any number of
+   times (fetches of any updates below any prefix, reference writes and removals by git-bug or by the host's user,
+   git pack-refs --all / git gc at any moment): if no reference file was without a value at the start, none ever is
+   — git never sees a broken reference, in a process that lives as long as one likes *)
+Theorem C15_refs_never_broken steps rs : no_broken rs -> no_broken (rs_run steps rs) /\ forall loc, rs_view (rs_run steps rs) loc <> RBroken.
+Proof. exact (fun NB => conj (ref_session_no_broken steps rs NB) (fun loc => no_broken_view _ loc (ref_session_no_broken steps rs NB))). Qed.
+Print Assumptions C15_refs_never_broken.
+
+(* a fetch gives the tracking reference it updates the new value, wherever the old one was kept (loose file,
+   packed-refs, both, nowhere) *)
+Theorem C15_fetch_updates_tracking_ref inside loc new rs : inside loc = true -> no_broken rs ->
+  rs_view (rs_fetch inside [(loc, new)] rs) loc = RPoints new.
+Proof. exact (fetch_updates_ref inside loc new rs). Qed.
+Print Assumptions C15_fetch_updates_tracking_ref.
+
 (* ---- non-vacuity ---- *)
+
+(* the packed references have to be made loose before every fetch, not once per opened repository: pull, git gc, pull
+   without the unpacking leaves refs/remotes/origin/bugs/b1 broken; with it (FetchRefs) the reference gets its new value *)
+Example C15_fetch_unpack_every_time :
+  (rs_view (rs_pack_all (rs_fetch ex_inside [(ex_loc, 1)] (mkrs [] []))) ex_loc = RPoints 1) /\
+  (rs_view (rs_updates ex_inside [(ex_loc, 2)] (rs_pack_all (rs_fetch ex_inside [(ex_loc, 1)] (mkrs [] [])))) ex_loc = RBroken) /\
+  (rs_view (rs_fetch ex_inside [(ex_loc, 2)] (rs_pack_all (rs_fetch ex_inside [(ex_loc, 1)] (mkrs [] [])))) ex_loc = RPoints 2).
+Proof. exact fetch_without_unpack_breaks. Qed.
 
 Definition id1 : Frame.str := repeat 97 64.
 Definition host : repo :=
